@@ -103,7 +103,14 @@ func (r kvRes) coq() string {
 
 func bname(b int) []byte { return []byte{'B', byte('0' + b)} }
 func kname(k int) []byte { return []byte{'k', byte('0' + k)} }
-func vname(v int) []byte { return []byte{'v', byte('0' + v)} }
+// vname renders a value; value 0 is the empty (zero-length, non-nil) byte string, which the chain
+// store does write (an expiration list whose last id was removed).
+func vname(v int) []byte {
+	if v == 0 {
+		return []byte{}
+	}
+	return []byte{'v', byte('0' + v)}
+}
 func decodeK(k []byte) string {
 	if len(k) == 2 && k[0] == 'k' {
 		return string(k[1:])
@@ -111,6 +118,9 @@ func decodeK(k []byte) string {
 	return fmt.Sprintf("?%x", k)
 }
 func decodeV(v []byte) string {
+	if len(v) == 0 {
+		return "0"
+	}
 	if len(v) == 2 && v[0] == 'v' {
 		return string(v[1:])
 	}
@@ -292,7 +302,7 @@ func kvMutations() []kvOp {
 	for b := 0; b < 2; b++ {
 		ms = append(ms, kvOp{Kind: "create", B: b})
 		for k := 0; k < 2; k++ {
-			for v := 1; v <= 2; v++ {
+			for v := 0; v <= 2; v++ {
 				ms = append(ms, kvOp{Kind: "put", B: b, K: k, V: v})
 			}
 			ms = append(ms, kvOp{Kind: "del", B: b, K: k})
@@ -481,7 +491,18 @@ func runC17(c *Ctx) {
 	goLen, coqLen := c.Scale(5, 6), c.Scale(2, 3)
 	var rec func(prefix []kvOp, depth, nb, nk, nv int)
 	rec = func(prefix []kvOp, depth, nb, nk, nv int) {
-		if len(prefix) > 0 {
+		run := len(prefix) > 0
+		if len(prefix) == goLen && !c.Thorough {
+			// quick tier: at the last level only sequences that cross a session boundary
+			// (a flush or a cancel) are run; the thorough tier runs all of them
+			run = false
+			for _, m := range prefix {
+				if m.Kind == "flush" || m.Kind == "cancel" {
+					run = true
+				}
+			}
+		}
+		if run {
 			ops := interleave(prefix)
 			for _, be := range bes {
 				if strings.Contains(be.name, "Bolt") && len(prefix) > goLen-1 {
@@ -494,7 +515,7 @@ func runC17(c *Ctx) {
 			return
 		}
 		for _, m := range muts {
-			if m.B > nb || m.K > nk || (m.Kind == "put" && m.V > nv+1) {
+			if m.B > nb || m.K > nk || (m.Kind == "put" && m.V > nv+1 && m.V != 0) {
 				continue
 			}
 			b2, k2, v2 := nb, nk, nv
@@ -504,7 +525,7 @@ func runC17(c *Ctx) {
 			if (m.Kind == "put" || m.Kind == "del") && m.K == nk {
 				k2 = nk + 1
 			}
-			if m.Kind == "put" && m.V == nv+1 {
+			if m.Kind == "put" && m.V == nv+1 && m.V != 0 {
 				v2 = nv + 1
 			}
 			rec(append(prefix, m), depth-1, b2, k2, v2)
@@ -512,7 +533,7 @@ func runC17(c *Ctx) {
 	}
 	rec(nil, goLen, 0, 0, 0)
 	res.Exhaustive = true
-	res.Explored = map[string]any{"exhaustive_up_to_renaming_of_buckets_keys_values": true, "exhaustive_len_go": goLen, "exhaustive_len_go_bolt": goLen - 1, "exhaustive_len_coq": coqLen, "alphabet": len(muts)}
+	res.Explored = map[string]any{"exhaustive_up_to_renaming_of_buckets_keys_values": true, "exhaustive_last_level_only_with_flush_or_cancel_in_quick": !c.Thorough, "exhaustive_len_go": goLen, "exhaustive_len_go_bolt": goLen - 1, "exhaustive_len_coq": coqLen, "alphabet": len(muts)}
 
 	// random longer sequences with explicit reads
 	all := append(append([]kvOp(nil), muts...), kvReads()...)
